@@ -52,7 +52,7 @@ func checkC08(tier string) int {
 		params := world.Params{Frankenstein: 1, NumCandidates: 2, NumEthUsers: 3, TopValidators: 5, ChainID: fmt.Sprintf("OneLedger-c08-%d", hseed)}
 		w0, _ := world.New(params)
 		crng := rand.New(rand.NewSource(hseed * 17))
-		cfg := drive.Cfg{Tag: "c08", Seed: hseed, Blocks: blocks, Params: params, Scripts: allScripts, Scout: true, Jumps: true, Absents: true}
+		cfg := drive.Cfg{Tag: "c08", Seed: hseed, Blocks: blocks, Params: params, Scripts: allScripts, Scout: true, Jumps: true, Absents: true, Honest: true}
 		cfg.Specs = []world.NodeSpec{{Name: "lead", Validator: w0.Vals[1], LogLevel: 1}, {Name: "crasher", Validator: w0.Vals[1], LogLevel: 1}}
 		var point string
 		ptIdx := 0
